@@ -97,6 +97,34 @@ func cmdScan(args []string) {
 						}
 					}
 				}
+				// solar terms within a minute of a civil-day boundary (the day a term is "named for" is sensitive there)
+				for _, k := range calendar.JIE_QI_IN_USE {
+					s := t[k]
+					if s.GetYear() == y && ((s.GetHour() == 23 && s.GetMinute() == 59) || (s.GetHour() == 0 && s.GetMinute() == 0)) {
+						add("term-within-a-minute-of-midnight", y)
+					}
+				}
+				// length classes of the lunar year, and where its mid-terms fall inside their months
+				add(fmt.Sprintf("lunar-year-of-%d-days", ly.GetDayCount()), y)
+				for i, k := range calendar.JIE_QI_IN_USE {
+					s := t[k]
+					if i%2 == 1 && s.GetYear() == y {
+						ld := calendar.NewSolarFromYmd(s.GetYear(), s.GetMonth(), s.GetDay()).GetLunar()
+						if ld.GetDay() == 1 {
+							add("mid-term-on-first-day-of-month", y)
+						}
+						if nx := ld.Next(1); nx.GetDay() == 1 {
+							add("mid-term-on-last-day-of-month", y)
+						}
+					}
+				}
+				if d1 := calendar.NewLunarFromYmd(y, 1, 1).GetSolar(); d1.GetYear() == y {
+					if md := d1.GetMonth()*100 + d1.GetDay(); md <= 121 {
+						add("new-year-on-or-before-jan-21", y)
+					} else if md >= 220 {
+						add("new-year-on-or-after-feb-20", y)
+					}
+				}
 				if m := ly.GetLeapMonth(); m > 0 {
 					add(fmt.Sprintf("leap-month-%d", m), y)
 				}
